@@ -145,9 +145,10 @@ verus! {
 //@include-trusted env/dist_ops.vs
 //@include env/vsum_impls.vs
 //@include env/cache_spec.vs
-//@include env/cache_lemmas.vs
-//@include env/remove_lemmas.vs
-//@include env/insert_lemmas.vs
+// the three lemma files below are proved in their home slice tour_mod; here their bodies are not re-checked
+//@include-proved env/cache_lemmas.vs
+//@include-proved env/remove_lemmas.vs
+//@include-proved env/insert_lemmas.vs
 
 pub mod tr {
 use super::*;
